@@ -36,8 +36,13 @@ NOT_UNDER_CONTRACT = ['src.ir.type_utils.update_type_var_bound_rec', 'src.ir.typ
 
 def custom_proof(tier):
     """the global switches reach cfg: symbolic execution of the configuration block of src/args.py (z3)"""
-    from pyvc import statecheck
-    return statecheck.switch_wiring_obligations(os.environ.get('HEPH_REPO', '/repo'))[:2]
+    from pyvc import statecheck, frontend
+    repo = os.environ.get('HEPH_REPO', '/repo')
+    out = statecheck.switch_wiring_obligations(repo)[:2]
+    # the site obligations at t_args.append(...) speak about the RESULT only if every return hands out that accumulator
+    out += statecheck.result_through_sites(frontend.Frontend(repo), 'src.ir.type_utils._compute_type_variable_assignments',
+                                           't_args', 0, allowed_callees=('update_type_var_bound_rec',))
+    return out
 
 
 from props import C08_bounded as _b   # noqa: E402
